@@ -285,15 +285,24 @@ def appendBundle (dst src : Bytes) (maxLen dstLen srcLen : Nat) : Rd BResult :=
 
 /-! ### the C++ wrappers that build into fixed buffers (C02) -/
 
-/-- `ThreadLink::writeArray` / `ThreadLink::write` up to the hand-off to the ring:
-    `rtosc_amessage(write_buffer, MaxMsg, dest, args, aargs)`; `wbuf` is `write_buffer`. -/
-def tlinkWrite (wbuf : Bytes) (addr tags : Bytes) (args : List CArg) : Option AResult :=
+/-- `ThreadLink::writeArray` up to the hand-off to the ring:
+    `rtosc_amessage(write_buffer, MaxMsg, dest, args, aargs)`; `wbuf` is `write_buffer`
+    (`MaxMsg = wbuf.length`). -/
+def tlinkWriteArray (wbuf : Bytes) (addr tags : Bytes) (args : List CArg) : Option AResult :=
   amessage (some wbuf) addr tags args
 
-/-- `RtData::reply(path,args,...)` / `broadcast`: `char buffer[8192]; rtosc_vmessage(buffer,8192,…)`;
-    `stack` is the content of the 8192 bytes before the call. -/
-def rtdataReply (stack : Bytes) (addr tags : Bytes) (args : List CArg) : Option AResult :=
-  amessage (some stack) addr tags args
+/-- `ThreadLink::write(dest, args, ...)`: `rtosc_vmessage(write_buffer, MaxMsg, dest, args, va)`;
+    `va` are the promoted values of the call site. -/
+def tlinkWrite (narrow : UInt64 → UInt32) (wbuf : Bytes) (addr tags : Bytes) (va : List VaArg) :
+    Option AResult :=
+  vmessage narrow (some wbuf) addr tags va
+
+/-- `RtData::reply(path,args,...)` / `RtData::broadcast(path,args,...)`:
+    `char buffer[8192]; rtosc_vmessage(buffer,8192,path,args,va);` — `stack` is what the
+    8192 bytes hold before the call. -/
+def rtdataReply (narrow : UInt64 → UInt32) (stack : Bytes) (addr tags : Bytes) (va : List VaArg) :
+    Option AResult :=
+  vmessage narrow (some stack) addr tags va
 
 /-! ### Specification: what a bundle *is* -/
 
@@ -327,10 +336,43 @@ def Elem.isBundle : Elem → Bool
   | .msg _ => false
   | .bundle _ _ => true
 
+/-- distance of the size field of element `i` from the first size field -/
+def Spec.elemRel : List Elem → Nat → Nat
+  | [], _ => 0
+  | _ :: _, 0 => 0
+  | e :: es, i + 1 => 4 + (Spec.encodeElem e).length + Spec.elemRel es i
+
 /-- offset of element `i` inside `Spec.encodeElem (.bundle tt es)` -/
-def Spec.elemOffset : List Elem → Nat → Nat
-  | [], _ => 20
-  | _ :: _, 0 => 20
-  | e :: es, i + 1 => 4 + (Spec.encodeElem e).length + Spec.elemOffset es i
+def Spec.elemOffset (es : List Elem) (i : Nat) : Nat := 20 + Spec.elemRel es i
+
+/-- the block `blk` an element pointer points into starts with the encoding of `e` -/
+def Elem.Holds (blk : Bytes) (e : Elem) : Prop := Spec.encodeElem e <+: blk
+
+/-- behind a bundle the block goes on with a zero word (a message needs nothing behind it) -/
+def Elem.Terminated (blk : Bytes) (e : Elem) : Prop :=
+  e.isBundle = true → (blk.drop (Spec.encodeElem e).length).take 4 = [0, 0, 0, 0]
+
+instance (blk : Bytes) (e : Elem) : Decidable (Elem.Terminated blk e) := by
+  unfold Elem.Terminated; exact inferInstance
+
+/-- **Trigger of known finding C08-K4**: some element is a bundle whose block does not go on
+    with a zero word — `rtosc_bundle` asks `rtosc_message_length(msg,-1)` for its size, and
+    `bundle_ring_length` reads the word behind the last element (rtosc.c:750 / 551). -/
+def NestedUnterminated : List Elem → List Bytes → Prop
+  | e :: es, blk :: blks => ¬ Elem.Terminated blk e ∨ NestedUnterminated es blks
+  | _, _ => False
+
+instance : ∀ (es : List Elem) (blks : List Bytes), Decidable (NestedUnterminated es blks)
+  | [], _ => isFalse (by simp [NestedUnterminated])
+  | _ :: _, [] => isFalse (by simp [NestedUnterminated])
+  | e :: es, blk :: blks =>
+    have := instDecidableNestedUnterminated es blks
+    decidable_of_iff (¬ Elem.Terminated blk e ∨ NestedUnterminated es blks) (by simp [NestedUnterminated])
+
+/-- element by element, the blocks start with the encodings -/
+def BlocksHold : List Elem → List Bytes → Prop
+  | [], [] => True
+  | e :: es, blk :: blks => Elem.Holds blk e ∧ BlocksHold es blks
+  | _, _ => False
 
 end Rtosc.Osc
